@@ -2,7 +2,6 @@
 use crate::ops::*;
 use crate::types::*;
 use std::collections::{HashSet, VecDeque};
-use std::hash::BuildHasher;
 use std::io::Write;
 use std::panic::{catch_unwind, AssertUnwindSafe};
 
@@ -85,7 +84,7 @@ impl<'a> Sink<'a> {
         }
     }
     /// run one operation on the real queue and record it; returns false if it faulted (case over)
-    pub fn step<H: BuildHasher + Default + Clone>(&mut self, q: &mut AnyQ<H>, op: &Op, lk: Lookup) -> bool {
+    pub fn step<H: HX>(&mut self, q: &mut AnyQ<H>, op: &Op, lk: Lookup) -> bool {
         if self.mute {
             return catch_unwind(AssertUnwindSafe(|| apply(q, op, lk))).is_ok();
         }
@@ -159,11 +158,14 @@ pub enum PrioMode {
     Const,
     Small(i64),
     Wide,
+    /// `n` ranks, each with a 3-bit tag that takes no part in `Ord`/`Eq` (payload-carrying priorities)
+    Tagged(i64),
 }
 pub fn gen_prio(rng: &mut Rng, m: PrioMode) -> i64 {
     match m {
         PrioMode::Const => 5,
         PrioMode::Small(n) => rng.below(n as u64) as i64,
+        PrioMode::Tagged(n) => tagged(rng.below(n as u64), rng.below(8)),
         PrioMode::Wide => match rng.below(10) {
             0 => i64::MIN,
             1 => i64::MAX,
@@ -183,14 +185,14 @@ pub struct Profile {
     pub weights: Vec<(&'static str, u32)>,
 }
 
-pub fn present_keys<H: BuildHasher + Default + Clone>(q: &AnyQ<H>) -> Vec<u64> {
+pub fn present_keys<H: HX>(q: &AnyQ<H>) -> Vec<u64> {
     match q {
         AnyQ::Pq(x) => x.iter().map(|(i, _)| i.key()).collect(),
         AnyQ::Dpq(x) => x.iter().map(|(i, _)| i.key()).collect(),
     }
 }
 
-fn gen_key<H: BuildHasher + Default + Clone>(rng: &mut Rng, q: &AnyQ<H>, pf: &Profile, want_present: bool) -> u64 {
+fn gen_key<H: HX>(rng: &mut Rng, q: &AnyQ<H>, pf: &Profile, want_present: bool) -> u64 {
     if rng.below(100) < pf.absent_pct {
         return pf.universe + rng.below(pf.universe.max(1));
     }
@@ -203,7 +205,7 @@ fn gen_key<H: BuildHasher + Default + Clone>(rng: &mut Rng, q: &AnyQ<H>, pf: &Pr
     rng.below(pf.universe)
 }
 
-fn gen_pairs<H: BuildHasher + Default + Clone>(rng: &mut Rng, q: &AnyQ<H>, pf: &Profile, n: u64) -> Vec<E> {
+fn gen_pairs<H: HX>(rng: &mut Rng, q: &AnyQ<H>, pf: &Profile, n: u64) -> Vec<E> {
     (0..n).map(|_| (gen_key(rng, q, pf, false), rng.below(4), gen_prio(rng, pf.prio))).collect()
 }
 
@@ -229,7 +231,7 @@ fn gen_hint(rng: &mut Rng, n: u64) -> (u64, Option<u64>) {
     }
 }
 
-pub fn gen_op<H: BuildHasher + Default + Clone>(rng: &mut Rng, q: &AnyQ<H>, pf: &Profile) -> Op {
+pub fn gen_op<H: HX>(rng: &mut Rng, q: &AnyQ<H>, pf: &Profile) -> Op {
     let total: u32 = pf.weights.iter().map(|w| w.1).sum();
     loop {
         let mut x = rng.below(total as u64) as u32;
@@ -282,7 +284,10 @@ pub fn gen_op<H: BuildHasher + Default + Clone>(rng: &mut Rng, q: &AnyQ<H>, pf: 
                 let n = rng.below(len + 3);
                 let alphabet: &[Call] = if pq { &[Call::F, Call::F, Call::F, Call::F, Call::H, Call::N(1), Call::Z, Call::C] } else { &[Call::F, Call::F, Call::F, Call::B, Call::B, Call::B, Call::L, Call::H, Call::N(1), Call::M(1), Call::N(0), Call::M(2), Call::Z, Call::C] };
                 let prog = (0..n).map(|_| (*rng.pick(alphabet), gen_w(rng, pf))).collect();
-                Op::IterMut { forget: rng.chance(1, 8), late: false, prog }
+                let forget = rng.chance(1, 8);
+                let op = Op::IterMut { forget, late: false, prog };
+                // a quarter of the (not leaked) iterations go through `(&mut q).into_iter()`
+                if !forget && rng.chance(1, 4) { Op::ViaRef(Box::new(op)) } else { op }
             }
             "extend" => {
                 let n = if rng.chance(1, 4) { rng.range(20, 70) } else { rng.below(6) };
@@ -317,7 +322,8 @@ pub fn gen_op<H: BuildHasher + Default + Clone>(rng: &mut Rng, q: &AnyQ<H>, pf: 
             }
             "iter" => {
                 let n = rng.below(len + 3);
-                Op::Iter(gen_calls(rng, n, &[Call::F, Call::F, Call::F, Call::B, Call::B, Call::L, Call::H, Call::N(1), Call::M(1), Call::N(0), Call::M(0), Call::N(3), Call::Z, Call::C]))
+                let op = Op::Iter(gen_calls(rng, n, &[Call::F, Call::F, Call::F, Call::B, Call::B, Call::L, Call::H, Call::N(1), Call::M(1), Call::N(0), Call::M(0), Call::N(3), Call::Z, Call::C]));
+                if rng.chance(1, 3) { Op::ViaRef(Box::new(op)) } else { op }
             }
             "into_iter" => {
                 let n = rng.below(len + 3);
@@ -365,6 +371,16 @@ pub fn gen_op<H: BuildHasher + Default + Clone>(rng: &mut Rng, q: &AnyQ<H>, pf: 
                 Op::Eq(xs)
             }
             "clone" => if rng.chance(1, 2) { Op::CloneSwap } else { Op::CloneCheck },
+            "fresh" => Op::Fresh(rng.below(7) as u8, *rng.pick(&[0u64, 0, 1, 5, 64])),
+            "dbg" => Op::Dbg,
+            "deser_unit" => Op::DeserUnit,
+            "deser_bad" => {
+                let n = rng.below(5);
+                let v = rng.below(12) as u8;
+                // variant 8 with no pairs would be the well-formed `[]`
+                Op::DeserBad(if v == 8 && n == 0 { 5 } else { v }, gen_pairs(rng, q, pf, n))
+            }
+            "ser_fail" => Op::SerFail(rng.below(400)),
             other => panic!("unknown op class {}", other),
         };
         if op.valid_for(kind) {
@@ -381,6 +397,7 @@ pub fn core_weights() -> Vec<(&'static str, u32)> {
         ("iter_mut", 15), ("extend", 15), ("append", 8), ("convert", 8), ("clear", 2), ("drain", 3),
         ("from_vec", 3), ("from_iter", 3), ("len", 15), ("sorted_vec", 8), ("sorted_iter", 6), ("iter", 6),
         ("into_iter", 3), ("into_vec", 3), ("eq", 5), ("clone", 5), ("serde_rt", 3), ("deser", 2), ("capacity", 10),
+        ("fresh", 2), ("dbg", 5), ("deser_unit", 1), ("deser_bad", 2), ("ser_fail", 2),
     ]
 }
 
@@ -397,7 +414,7 @@ pub fn weights_with(boost: &[(&'static str, u32)]) -> Vec<(&'static str, u32)> {
 }
 
 /// structured random histories
-pub fn random_stream<H: BuildHasher + Default + Clone>(
+pub fn random_stream<H: HX>(
     sink: &mut Sink,
     rng: &mut Rng,
     kinds: &[Kind],
@@ -406,7 +423,7 @@ pub fn random_stream<H: BuildHasher + Default + Clone>(
     maxlen: u64,
 ) {
     let universes = [3u64, 4, 6, 8, 12, 16, 24, 32, 64];
-    let prios = [PrioMode::Const, PrioMode::Small(2), PrioMode::Small(3), PrioMode::Small(10), PrioMode::Small(100), PrioMode::Wide];
+    let prios = [PrioMode::Const, PrioMode::Small(2), PrioMode::Small(3), PrioMode::Small(10), PrioMode::Small(100), PrioMode::Wide, PrioMode::Tagged(1), PrioMode::Tagged(3), PrioMode::Tagged(12)];
     let prefill = [0u64, 0, 0, 1, 2, 3, 7, 15, 16, 17, 31, 33, 40, 64];
     for c in 0..ncases {
         if sink.full() {
@@ -426,6 +443,13 @@ pub fn random_stream<H: BuildHasher + Default + Clone>(
             continue;
         }
         let mut q: AnyQ<H> = AnyQ::new(kind);
+        // half of the cases start from one of the seven public constructors instead of the harness default
+        if r.chance(1, 2) {
+            let op = Op::Fresh(r.below(7) as u8, *r.pick(&[0u64, 1, 3, 40, 1000]));
+            if !sink.step(&mut q, &op, lk) {
+                continue;
+            }
+        }
         let n0 = *r.pick(&prefill);
         if n0 > 0 {
             let big = Profile { universe: pf.universe.max(n0), ..pf.clone() };
@@ -451,7 +475,7 @@ pub fn random_stream<H: BuildHasher + Default + Clone>(
 
 /// Exhaustive small scope: breadth-first over reachable states (deduplicated by white-box snapshot); from
 /// every state every operation of the alphabet is applied as its own case (`load` + op).
-pub fn bfs_stream<H: BuildHasher + Default + Clone>(sink: &mut Sink, kinds: &[Kind], u: u64, v: i64, max_states: usize, with_convert: bool) -> (usize, bool) {
+pub fn bfs_stream<H: HX>(sink: &mut Sink, kinds: &[Kind], u: u64, v: i64, max_states: usize, with_convert: bool) -> (usize, bool) {
     let mut seen: HashSet<String> = HashSet::new();
     let mut queue: VecDeque<AnyQ<H>> = VecDeque::new();
     for k in kinds {
@@ -566,7 +590,7 @@ pub fn bfs_stream<H: BuildHasher + Default + Clone>(sink: &mut Sink, kinds: &[Ki
 
 /// every priority pattern of length `n` over `v` values, built three ways, then every single
 /// change_priority / remove / pop applied to it (C01/C02: all sift paths on 3-level trees)
-pub fn pattern_stream<H: BuildHasher + Default + Clone>(sink: &mut Sink, kinds: &[Kind], n: u32, v: i64, stride: u64) {
+pub fn pattern_stream<H: HX>(sink: &mut Sink, kinds: &[Kind], n: u32, v: i64, stride: u64) {
     let total = (v as u64).pow(n);
     let mut idx = 0u64;
     while idx < total {
@@ -605,7 +629,7 @@ pub fn pattern_stream<H: BuildHasher + Default + Clone>(sink: &mut Sink, kinds: 
 }
 
 /// all call sequences of length `l` over the iterator alphabets, at sizes 0..=maxn, for every iterator type
-pub fn iter_stream<H: BuildHasher + Default + Clone>(sink: &mut Sink, kinds: &[Kind], maxn: u64, l: u32, which: &[&str]) {
+pub fn iter_stream<H: HX>(sink: &mut Sink, kinds: &[Kind], maxn: u64, l: u32, which: &[&str]) {
     let full = [Call::F, Call::B, Call::L, Call::H, Call::N(0), Call::N(1), Call::N(2), Call::M(0), Call::M(1), Call::M(3), Call::Z, Call::C];
     let front = [Call::F, Call::H, Call::N(0), Call::N(1), Call::N(3), Call::Z, Call::C];
     for kind in kinds {
@@ -645,14 +669,14 @@ pub fn iter_stream<H: BuildHasher + Default + Clone>(sink: &mut Sink, kinds: &[K
 }
 
 /// bulk inputs for C07: receivers of many sizes, duplicated inputs, every kind of hint, both strategies
-pub fn bulk_stream<H: BuildHasher + Default + Clone>(sink: &mut Sink, rng: &mut Rng, kinds: &[Kind], ncases: u64) {
+pub fn bulk_stream<H: HX>(sink: &mut Sink, rng: &mut Rng, kinds: &[Kind], ncases: u64) {
     let sizes = [0u64, 1, 2, 3, 8, 16, 32, 40, 64, 100];
     for c in 0..ncases {
         if sink.full() { return; }
         let mut r = rng.fork(c);
         let kind = *r.pick(kinds);
         let n0 = *r.pick(&sizes);
-        let pf = Profile { universe: (n0 + 8).max(8), prio: *r.pick(&[PrioMode::Small(3), PrioMode::Small(50), PrioMode::Wide]), absent_pct: 10, weights: vec![] };
+        let pf = Profile { universe: (n0 + 8).max(8), prio: *r.pick(&[PrioMode::Small(3), PrioMode::Small(50), PrioMode::Wide, PrioMode::Tagged(4)]), absent_pct: 10, weights: vec![] };
         if !sink.case(kind) { continue; }
         let mut q: AnyQ<H> = AnyQ::new(kind);
         let xs0: Vec<E> = (0..n0).map(|k| (k, 0, gen_prio(&mut r, pf.prio))).collect();
@@ -679,7 +703,7 @@ pub fn bulk_stream<H: BuildHasher + Default + Clone>(sink: &mut Sink, rng: &mut 
 }
 
 /// large queues for the cost property: patterns ascending / descending / constant / random / alternating
-pub fn large_stream<H: BuildHasher + Default + Clone>(sink: &mut Sink, rng: &mut Rng, kinds: &[Kind], sizes: &[u64]) {
+pub fn large_stream<H: HX>(sink: &mut Sink, rng: &mut Rng, kinds: &[Kind], sizes: &[u64]) {
     for kind in kinds {
         for &n in sizes {
             for pat in 0..5u64 {
@@ -725,7 +749,7 @@ pub fn large_stream<H: BuildHasher + Default + Clone>(sink: &mut Sink, rng: &mut
 
 
 /// table well-formedness as the crate's unchecked accesses need it
-pub fn wf_of<H: BuildHasher + Default + Clone>(q: &AnyQ<H>) -> bool {
+pub fn wf_of<H: HX>(q: &AnyQ<H>) -> bool {
     // after a panic inside IndexMap's own `retain` even reading the lengths can trip IndexMap's debug assertions
     let snap = catch_unwind(AssertUnwindSafe(|| match q {
         AnyQ::Pq(x) => x.verif_snapshot(),
@@ -754,14 +778,14 @@ pub fn crash_key(kind: Kind, op: &Op, cmp: u8) -> String {
 
 /// C10: for reachable states, every operation, every index k of the user callback that panics: state after
 /// `catch_unwind`, then continuations (fault-free and faulty) and drop, with live-object accounting
-pub fn crash_stream<H: BuildHasher + Default + Clone>(sink: &mut Sink, rng: &mut Rng, kinds: &[Kind], ncases: u64, max_k: u64) {
+pub fn crash_stream<H: HX>(sink: &mut Sink, rng: &mut Rng, kinds: &[Kind], ncases: u64, max_k: u64) {
     TRACK.with(|t| t.set(true));
     for c in 0..ncases {
         if sink.full() { break; }
         let mut r = rng.fork(c);
         let kind = *r.pick(kinds);
         let pq = kind == Kind::Pq;
-        let pf = Profile { universe: *r.pick(&[4u64, 8, 16, 40]), prio: *r.pick(&[PrioMode::Small(3), PrioMode::Small(20), PrioMode::Wide]), absent_pct: 5, weights: core_weights() };
+        let pf = Profile { universe: *r.pick(&[4u64, 8, 16, 40]), prio: *r.pick(&[PrioMode::Small(3), PrioMode::Small(20), PrioMode::Wide, PrioMode::Tagged(3)]), absent_pct: 5, weights: core_weights() };
         // the state the faulty operation starts from
         let n0 = *r.pick(&[0u64, 1, 2, 3, 5, 8, 12, 20, 40]);
         let xs0: Vec<E> = (0..n0).map(|k| (k, 0, gen_prio(&mut r, pf.prio))).collect();
@@ -881,13 +905,13 @@ pub fn crash_stream<H: BuildHasher + Default + Clone>(sink: &mut Sink, rng: &mut
 
 /// C10 mirror stream: a generated history followed by ONE operation with the k-th comparison (or callback) panicking;
 /// the post-fault white-box state is compared with the Lean crash model (`PQ/Model/Crash.lean`) by the driver.
-pub fn crash_mirror_stream<H: BuildHasher + Default + Clone>(sink: &mut Sink, rng: &mut Rng, kinds: &[Kind], ncases: u64, max_k: u64, cont: u64) {
+pub fn crash_mirror_stream<H: HX>(sink: &mut Sink, rng: &mut Rng, kinds: &[Kind], ncases: u64, max_k: u64, cont: u64) {
     for c in 0..ncases {
         if sink.full() { break; }
         let mut r = rng.fork(c);
         let kind = *r.pick(kinds);
         let pq = kind == Kind::Pq;
-        let pf = Profile { universe: *r.pick(&[4u64, 8, 16, 40]), prio: *r.pick(&[PrioMode::Small(3), PrioMode::Small(20), PrioMode::Wide]), absent_pct: 5,
+        let pf = Profile { universe: *r.pick(&[4u64, 8, 16, 40]), prio: *r.pick(&[PrioMode::Small(3), PrioMode::Small(20), PrioMode::Wide, PrioMode::Tagged(3)]), absent_pct: 5,
                            weights: weights_with(&[("serde_rt", 0), ("deser", 0), ("capacity", 0), ("clone", 0), ("eq", 0)]) };
         let n0 = *r.pick(&[0u64, 1, 2, 3, 5, 8, 12, 20, 40]);
         let xs0: Vec<E> = (0..n0).map(|k| (k, 0, gen_prio(&mut r, pf.prio))).collect();
